@@ -417,3 +417,61 @@ func unchangedRunCase(prop string) {
 		}
 	}
 }
+
+// arrayRegrowFrameCase: ONE small frame (about 2 MB) whose records make a struct array grow again
+// and again (the point alternates between no exemplars and 2000): what the reader accounts for these
+// growths adds up to far more than RecordAllocLimit over the frame, while no single record comes
+// near it. Every record must be readable (the allocation budget is per record).
+func arrayRegrowFrameCase(prop string) {
+	name := "array-regrow-400x2000-exemplars"
+	note("case %s", name)
+	cw := &chunkLog{}
+	w, err := otelstef.NewMetricsWriter(cw, pkg.WriterOptions{})
+	if err != nil {
+		propFail("%s array-regrow-writer case=%s %v", prop, name, err)
+		return
+	}
+	const recs, big = 400, 2000
+	w.Record.Metric().SetName("m")
+	for i := 0; i < recs; i++ {
+		ex := w.Record.Point().Exemplars()
+		if i%2 == 1 {
+			ex.EnsureLen(big)
+			for k := 0; k < big; k += 97 {
+				ex.At(k).SetTimestamp(uint64(i*big + k))
+			}
+		} else {
+			ex.EnsureLen(0)
+		}
+		w.Record.Point().SetTimestamp(uint64(i))
+		if err := w.Write(); err != nil {
+			propFail("%s array-regrow-write case=%s record %d: %v", prop, name, i, err)
+			return
+		}
+	}
+	if err := w.Flush(); err != nil {
+		propFail("%s array-regrow-flush case=%s %v", prop, name, err)
+		return
+	}
+	note("nontrivial %x", uint64(recs*big))
+	stats["array-regrow-stream-bytes"] = cw.buf.Len()
+	rd, err := otelstef.NewMetricsReader(bytes.NewReader(cw.buf.Bytes()))
+	if err != nil {
+		propFail("%s array-regrow-not-readable case=%s %v", prop, name, err)
+		return
+	}
+	for i := 0; i < recs; i++ {
+		if err := rd.Read(pkg.ReadOptions{}); err != nil {
+			propFail("%s array-regrow-not-readable case=%s %d Metrics records whose point alternates between 0 and %d exemplars, default options, one Flush (stream of %d bytes, %d chunks): Read of record %d returned: %v", prop, name, recs, big, cw.buf.Len(), len(cw.ends), i, err)
+			return
+		}
+		want := 0
+		if i%2 == 1 {
+			want = big
+		}
+		if rd.Record.Point().Exemplars().Len() != want || rd.Record.Point().Timestamp() != uint64(i) {
+			propFail("%s array-regrow-value-changed case=%s record %d has %d exemplars, want %d", prop, name, i, rd.Record.Point().Exemplars().Len(), want)
+			return
+		}
+	}
+}
